@@ -142,7 +142,7 @@ def cfgStep (σ : St) (profile : String) (obs : List String) : St × List Msg :=
     let pure : List Msg :=
       if built = "changed" then [.propfail "print_load_stable_partial" "config-mutated-by-tree-build"
           "Config.String() of the loaded configuration differs before and after dispatch.NewRoute(cfg.Route): building the routing tree rewrote the configuration it was given"]
-      else if built = "panic" then [.propfail "load_total" "panic" "dispatch.NewRoute panics on an accepted configuration"]
+      else if built = "panic" then [.propfail "load_total" "apply-panic" "applying an accepted configuration (dispatch.NewRoute, receiver.BuildReceiverIntegrations) panics: a reload with it kills the process instead of being applied or rejected"]
       else []
     let tags : List Msg :=
       [.tag s!"profile:{profile}", .tag s!"class:{m}"] ++
